@@ -39,7 +39,7 @@ MaxObj  == 2
 
 NoLive == [none |-> TRUE]
 
-Decl0 == [cons |-> <<"k0">>, nobj |-> 0, T |-> 1, t0 |-> 0, pval |-> 1, guess |-> 0, meth |-> "MS2", solver |-> "ipopt"]
+Decl0 == [ext |-> 0, cons |-> <<"k0">>, nobj |-> 0, T |-> 1, t0 |-> 0, pval |-> 1, guess |-> 0, meth |-> "MS2", solver |-> "ipopt"]
 
 NoSol == [none |-> TRUE]
 Init == /\ decl = Decl0 /\ live = NoLive /\ tflag = FALSE /\ dirty = FALSE /\ out = "ok" /\ sol = NoSol
@@ -56,6 +56,8 @@ EditDev(d, dev) ==
 SubjectTo(c)     == Len(decl.cons) < MaxCons /\ Edit([decl EXCEPT !.cons = Append(@, c)])
 ClearConstraints == Edit([decl EXCEPT !.cons = <<>>])
 AddObjective     == decl.nobj < MaxObj /\ Edit([decl EXCEPT !.nobj = @ + 1])
+\* a further state with its own dynamics declared late (possibly after a solve)
+AddState         == decl.ext = 0 /\ Edit([decl EXCEPT !.ext = 1])
 Method(m)        == Edit([decl EXCEPT !.meth = m])
 Solver(s)        == EditDev([decl EXCEPT !.solver = s], "Solver_NoInvalidate")
 SetT(v)          == EditDev([decl EXCEPT !.T = v], "SetT_NoInvalidate")
@@ -107,7 +109,7 @@ Save == /\ tflag' = FALSE /\ live' = NoLive /\ dirty' = FALSE /\ out' = "ok" /\ 
 
 Next == \/ \E c \in ConsIds : SubjectTo(c)
         \/ ClearConstraints
-        \/ AddObjective
+        \/ AddObjective \/ AddState
         \/ \E m \in Meths : Method(m)
         \/ \E s \in Solvers : Solver(s)
         \/ \E v \in Tvals : SetT(v)
@@ -123,7 +125,7 @@ Spec == Init /\ [][Next]_vars
 (* Properties                                                              *)
 (***************************************************************************)
 ConsSeqs == UNION {[1..n -> ConsIds \cup {"k0"}] : n \in 0..MaxCons}
-TypeOK == /\ decl \in [cons : ConsSeqs, nobj : 0..MaxObj, T : Tvals, t0 : T0vals, pval : Pvals,
+TypeOK == /\ decl \in [ext : {0, 1}, cons : ConsSeqs, nobj : 0..MaxObj, T : Tvals, t0 : T0vals, pval : Pvals,
                        guess : {0} \cup Gvals, meth : Meths, solver : Solvers]
           /\ tflag \in BOOLEAN /\ dirty \in BOOLEAN /\ out \in {"ok", "raise"}
           /\ (tflag <=> live # NoLive)
